@@ -84,6 +84,7 @@ type Stage struct {
 	Par   int    `json:"par,omitempty"`
 	Gate  bool   `json:"gate,omitempty"`
 	Inner *Stage `json:"inner,omitempty"` // fork
+	Xs    []int  `json:"xs,omitempty"`    // seq
 }
 
 type errVal int
@@ -283,6 +284,25 @@ func build(ctx context.Context, s *Stage, ins []chan int, c *calls) []output {
 	case "emit":
 		o, e := pipe.Emit(ctx, s.N, time.Duration(s.Freq)*tick, lift(s.eitherE(c)))
 		return []output{outInt(o), outErr(e)}
+	case "seq":
+		// pipe.Seq fills and closes its channel before returning; the values the driver "receives" are the
+		// elements of pipe.ToSeq over it, handed out one by one
+		ch := pipe.Seq(s.Xs...)
+		capacity := cap(ch)
+		var drained []int
+		done := false
+		return []output{{cap: capacity, try: func() (int, bool, bool) {
+			if !done {
+				drained = pipe.ToSeq(ch)
+				done = true
+			}
+			if len(drained) == 0 {
+				return 0, true, true
+			}
+			v := drained[0]
+			drained = drained[1:]
+			return v, false, true
+		}}}
 	case "throttle":
 		o := outInt(pipe.Throttling(ctx, roIns[0], s.Ops, time.Duration(s.Freq)*tick))
 		return []output{o, {cap: s.Ops}} // out 1 = the internal token channel (not observable): capacity ops by construction
